@@ -115,6 +115,36 @@ Proof.
   rewrite (normal_engine_items fhex fstr d subs _ b b' (H2 d subs)). reflexivity.
 Qed.
 
+(* re-wrapping a WRAP=YES data section: the numpy engine is not used, the normal engine reads
+   the token stream; the result is the same as soon as the column count handed to reshape is
+   (for a file that declares WRAP YES it is the number of curves whenever the sniffed count is
+   smaller or undetermined) and the recommended substitutions are *)
+Definition n_columns_of (sniffed : option nat) (ncurves : nat) (wd : bool) : nat :=
+  match sniffed with
+  | None => ncurves
+  | Some n => if wd && Nat.ltb n ncurves then ncurves else n
+  end.
+
+Lemma n_columns_of_wrapped sn nc : (match sn with Some n => (n < nc)%nat | None => True end) ->
+  n_columns_of sn nc true = nc.
+Proof.
+  destruct sn as [n|]; [|reflexivity]. intros H. unfold n_columns_of. cbn [andb].
+  apply Nat.ltb_lt in H. rewrite H. reflexivity.
+Qed.
+
+Theorem data_core_rewrap o pw pn d b b' cs wd sn sn' subs :
+  hval_is_str pw (s2l "YES") = true ->
+  inspect_twice d b (match d with DComma => comma_delim_subs | _ => default_subs end) = (sn, subs) ->
+  inspect_twice d b' (match d with DComma => comma_delim_subs | _ => default_subs end) = (sn', subs) ->
+  n_columns_of sn (List.length (s_items cs)) wd = n_columns_of sn' (List.length (s_items cs)) wd ->
+  List.concat (map (toks d subs) b) = List.concat (map (toks d subs) b') ->
+  data_core o pw pn d b cs wd = data_core o pw pn d b' cs wd.
+Proof.
+  intros Hw H1 H2 Hn Ht. unfold data_core. rewrite Hw, H1, H2. cbn [negb]. rewrite andb_false_r. cbn [andb].
+  cbv zeta. fold (n_columns_of sn (List.length (s_items cs)) wd). fold (n_columns_of sn' (List.length (s_items cs)) wd).
+  rewrite Hn. rewrite (normal_engine_rewrap fhex fstr d subs _ b b' Ht). reflexivity.
+Qed.
+
 (* the ~Other branch of step_section, as one update of the las *)
 Definition other_las (title txt : list N) (l : las) : las :=
   match second_upper title with
